@@ -22,6 +22,7 @@ def run(ctx):
         for k in range(1, 4):
             results.append(generic.engine_run(ctx, "pool", ["--seed", str(ctx.seed * 1000 + k), "--n", "4"], "extra%d" % k, timeout=900))
         race_variant(ctx)
+    known_overlap(ctx, results)
     bad = generic.proof_cov(ctx, extra_trusted=[
         "Go channel semantics: a send on an unbuffered channel completes iff a receiver is ready (the model's hand-off step); `go` does not wait for the new goroutine",
         "each job execution is one call of executeWithRetries (shape tied by the regenerated Retry facts); what a job does inside Execute is arbitrary, it may never return",
@@ -36,6 +37,31 @@ def run(ctx):
     if ok:
         ctx.coverage["leftover_quartz_goroutines_after_all_scenarios"] = max(r["stats"].get("leftover_quartz_goroutines", 0) for r in ok)
     return common.finish(ctx)
+
+
+KNOWN_PREFIX = "C12 KNOWN[restart-overlap] "
+
+
+def known_overlap(ctx, results):
+    """The restart-overlap scenario reports its observation as a string starting with KNOWN_PREFIX. Such strings are taken out of
+    the violation lists and passed to report_violation with the key of the known finding (it prints KNOWN-FINDING and does not fail as
+    long as known_findings.txt lists `finding: property=C12 key=restart-overlap`; without that line it is an ordinary violation).
+    Every other violation string stays where it is and fails the check."""
+    seen = 0
+    for r in results:
+        if r.get("failed"):
+            continue
+        vs = r["stats"].get("violations", [])
+        keep = []
+        for v in vs:
+            if isinstance(v, str) and v.startswith(KNOWN_PREFIX):
+                seen += 1
+                if seen <= 4:
+                    common.report_violation(ctx, v, {"engine": "pool", "what": v, "dir": r["dir"], "scenario": "restart-overlap"}, key="restart-overlap")
+            else:
+                keep.append(v)
+        r["stats"]["violations"] = keep
+    ctx.coverage["restart_overlap_observed"] = seen
 
 
 def race_variant(ctx):
